@@ -79,8 +79,10 @@ FINAL_KEYS = {"matched": "", "matched_reg": "", "used": False, "want_n": 0, "fwd
               "covert_conns": 0, "to_peer": 0, "unread": 0, "tab": ""}
 
 
-def run_cases(ctx, worlds_cases, par=300, timeout=3000, epoch_ms=0):
-    """worlds_cases: list of (world, [cases]).  Returns list of (world, case, record)."""
+def run_cases(ctx, worlds_cases, par=300, timeout=3000, epoch_ms=0, churn=0, churn_rows=None):
+    """worlds_cases: list of (world, [cases]).  Returns list of (world, case, record).
+    churn > 0: that many registry-writer goroutines work on the world's "churn-*" sessions while the cases run; what they report
+    (one row per batch) is appended to churn_rows."""
     inp = os.path.join(ctx.scratch, "classify_in_%d.ndjson" % len(os.listdir(ctx.scratch)))
     outp = inp.replace("_in_", "_out_")
     idx = {}
@@ -92,7 +94,7 @@ def run_cases(ctx, worlds_cases, par=300, timeout=3000, epoch_ms=0):
                     raise vlib.InfraError("duplicate case id " + c["id"])
                 idx[c["id"]] = (w, c)
                 f.write(json.dumps({k: v for k, v in c.items() if k != "hist"}) + "\n")
-    res = ctx.go_test(PKG, FILES, "main", "^TestVerifClassify$", env={"VERIF_IN": inp, "VERIF_OUT": outp, "VERIF_PAR": par, "VERIF_EPOCH_MS": epoch_ms},
+    res = ctx.go_test(PKG, FILES, "main", "^TestVerifClassify$", env={"VERIF_IN": inp, "VERIF_OUT": outp, "VERIF_PAR": par, "VERIF_EPOCH_MS": epoch_ms, "VERIF_CHURN": churn},
                       extra_overlays=BRIDGE, timeout=timeout)
     try:
         rows = ctx.read_results(outp)
@@ -102,6 +104,8 @@ def run_cases(ctx, worlds_cases, par=300, timeout=3000, epoch_ms=0):
         raise vlib.InfraError("classify driver did not finish:\n" + res["out"][-3000:])
     # secondary invariant (connStats state machine of cmd/application/conns.go): at quiescence nothing is in flight, every
     # connection was counted once as new and once as resolved, and the outcome counters add up
+    if churn_rows is not None:
+        churn_rows += [r for r in rows if r.get("kind") == "churn"]
     matched_total = sum(1 for r in rows if "case" in r and r["final"].get("matched"))
     cs = [r for r in rows if r.get("kind") == "connstats"]
     tot = {"cases": 0, "found": 0}
@@ -432,10 +436,19 @@ def binding_demo(ctx, results, sdir):
     raise vlib.InfraError("no event to corrupt for the binding demonstration")
 
 
-def stage_a(ctx):
+def stage_a(ctx, locks=False):
     sdir = ctx.spec_copy("Classify")
     r = ctx.tlc(sdir, "MC_Classify.tla", "MC_Classify.cfg", timeout=900, workers=8)
     ctx.require_design_ok(r, "Classify")
+    if locks:
+        # the table's RWMutex: lookups (one read lock each) against a writer on another goroutine that may queue at any point
+        rl = ctx.tlc(sdir, "MC_Classify.tla", "MC_Classify_locks.cfg", timeout=900, workers=8)
+        ctx.require_design_ok(rl, "Classify (lookups against a queued registry writer)")
+        b6 = ctx.tlc(sdir, "MC_Classify.tla", "MC_Classify_nested.cfg", timeout=300, workers=4, count=False)
+        if b6["inv"] not in ("temporal", "Terminates"):
+            raise vlib.InfraError("Classify instance whose lookups take the table's read lock a second time while holding it should violate "
+                                  "Terminates (a writer queues between the two: the handler never reads again, never returns), got %s" % b6["inv"])
+        ctx.stage("A", locks_states=rl["distinct"], locks_nonvacuity="instance with LookupLocks = nested violates Terminates behind a queued writer")
     b = ctx.tlc(sdir, "MC_Classify.tla", "MC_Classify_broken.cfg", timeout=300, workers=4, count=False)
     if not b["inv"]:
         raise vlib.InfraError("broken Classify instance (obfs4 gives up early) should violate an invariant")
